@@ -167,3 +167,17 @@ MUTANTS += [
  ('C15', 'historical-pool-ignores-bound', 'DB.py', "    def pop(self, key):\n        pool = self.pools.get(key)\n        if pool is not None:\n            return pool.pop()", "    def pop(self, key):\n        pool = self.pools.get(key) or (list(self.pools.values()) or [None])[0]\n        if pool is not None:\n            return pool.pop()"),
  ('C15', 'datetime-drops-microseconds', 'DB.py', "    args = utc_struct[:5] + (utc_struct[5] + dt.microsecond / 1000000.0,)", "    args = utc_struct[:5] + (utc_struct[5] + 0.0,)"),
 ]
+MUTANTS += [
+ ('C02', 'newtransaction-no-invalidate', CONN, "            invalidated = self._cache.cache_data.copy()\n        self._cache.invalidate(invalidated)", "            invalidated = self._cache.cache_data.copy()"),
+ ('C02', 'invalidate-finish-skipped', MVCC, "            self._base._invalidate_finish(tid, modified, self)\n            self._ltid = tid\n            func(tid)", "            self._ltid = tid\n            func(tid)"),
+ ('C02', 'loadbefore-le', FS, "                if h.tid < tid:\n                    break\n\n                pos = h.prev\n                end_tid = h.tid", "                if h.tid <= tid:\n                    break\n\n                pos = h.prev\n                end_tid = h.tid"),
+ ('C02', 'poll-start-not-advanced', MVCC, "            self._start = p64(u64(max(ltid, self._ltid)) + 1)", "            if self._start is None:\n                self._start = p64(u64(max(ltid, self._ltid)) + 1)"),
+ ('C02', 'invalidations-cleared-before-read', MVCC, "                result = list(self._invalidations)\n                self._invalidations.clear()\n                return result", "                self._invalidations.clear()\n                result = list(self._invalidations)\n                return result"),
+ ('C02', 'mapping-loadbefore-returns-latest', 'MappingStorage.py', "                tid = tids_before[-1]\n                return (tid_data[tid], tid,", "                tid = tid_data.maxKey()\n                return (tid_data[tid], tid,"),
+ ('C03', 'fs-store-skips-serial-test', FS, "                if oldserial != committed_tid:\n                    data = self.tryToResolveConflict(oid, committed_tid,\n                                                     oldserial, data)\n                    self._resolved.append(oid)", "                pass"),
+ ('C03', 'mapping-store-skips-serial-test', 'MappingStorage.py', "            if serial != old_tid:\n                raise ZODB.POSException.ConflictError(\n                    oid=oid, serials=(old_tid, serial), data=data)", "            pass"),
+ ('C03', 'readcurrent-not-checked', CONN, "        for oid, serial in self._readCurrent.items():\n            try:\n                self._storage.checkCurrentSerialInTransaction(\n                    oid, serial, transaction)\n            except ConflictError:\n                self._cache.invalidate(oid)\n                raise", "        pass"),
+ ('C03', 'readcurrent-not-cleared', CONN, "    def newTransaction(self, transaction, sync=True):\n        self._readCurrent.clear()", "    def newTransaction(self, transaction, sync=True):"),
+ ('C03', 'check-current-compares-ge', 'BaseStorage.py', "    committed_tid = self.getTid(oid)\n    if committed_tid != serial:", "    committed_tid = self.getTid(oid)\n    if committed_tid < serial:"),
+ ('C03', 'resolution-uses-new-as-committed', 'ConflictResolution.py', "        resolved = resolve(old, committed, newstate)", "        resolved = resolve(old, newstate, newstate)"),
+]
